@@ -218,6 +218,33 @@ fn conv_with(e: &Env, rng: &mut impl Rng, bs: usize, ci: usize, co: usize, h: us
     emit(base, out);
 }
 
+/// Layout of the convolution packing for Conv2d.tla: encoded tiles / weight blocks of structured tensors and the term list
+fn conv_layout(e: &Env, bs: usize, ci: usize, co: usize, h: usize, w: usize, kh: usize, kw: usize, objective: Conv2dHelperObjective) {
+    let x: Vec<u64> = (0..bs * ci * h * w).map(|i| 1 + (i as u64 % (e.t - 1))).collect();
+    let wt: Vec<u64> = (0..co * ci * kh * kw).map(|i| 1 + ((5 + 7 * i as u64) % (e.t - 1))).collect();
+    let mut ev = json!({"k": "conv_layout", "objective": format!("{:?}", objective), "N": e.n, "t": e.t, "bs": bs, "ci": ci, "co": co, "h": h, "wd": w, "kh": kh, "kw": kw, "x": x, "w": wt});
+    let out = guarded(|| {
+        let hp = Conv2dHelper::new(bs, ci, co, h, w, kh, kw, e.n, objective);
+        let dec = |p: &Plaintext| -> Vec<u64> {
+            let mut v = e.enc.decode_polynomial_new(p);
+            v.resize(e.n, 0);
+            v
+        };
+        let xe: Vec<Vec<Vec<u64>>> = hp.encode_inputs_bfv(&e.enc, &x).data.iter().map(|row| row.data.iter().map(|p| dec(p)).collect()).collect();
+        let we: Vec<Vec<Vec<u64>>> = hp.encode_weights_bfv(&e.enc, &wt).data.iter().map(|row| row.data.iter().map(|p| dec(p)).collect()).collect();
+        (xe, we, hp.output_terms())
+    });
+    match out {
+        Ok((xe, we, ot)) => {
+            ev["enc_in"] = json!(xe);
+            ev["enc_w"] = json!(we);
+            ev["out_terms"] = json!(ot);
+        }
+        Err(msg) => ev["panic"] = json!(msg),
+    }
+    println!("{}", ev);
+}
+
 pub fn main(args: &[String]) {
     silence_panics();
     let quick = args[0] == "quick";
@@ -297,6 +324,28 @@ pub fn main(args: &[String]) {
     }
     if part == "all" || part == "conv" {
         let e = env(32, 193, vec![50, 50, 50]);
+        // the packing layout itself (Conv2d.tla)
+        let mxhw = if quick { 4 } else { 6 };
+        let mxk = if quick { 2 } else { 3 };
+        for bs in 1..=2usize {
+            for ci in 1..=2usize {
+                for co in 1..=2usize {
+                    for h in 1..=mxhw {
+                        for w in 1..=mxhw {
+                            for kh in 1..=mxk.min(h) {
+                                for kw in 1..=mxk.min(w) {
+                                    for obj in [Conv2dHelperObjective::CipherPlain, Conv2dHelperObjective::PlainCipher, Conv2dHelperObjective::CpAddPc] {
+                                        if (bs + ci + co + h + w + kh + kw) % 2 == 0 || !quick {
+                                            conv_layout(&e, bs, ci, co, h, w, kh, kw, obj);
+                                        }
+                                    }
+                                }
+                            }
+                        }
+                    }
+                }
+            }
+        }
         let hs: Vec<usize> = if quick { vec![2, 3, 5, 7] } else { (2..=9).collect() };
         for &h in &hs {
             for &w in &hs {
